@@ -107,7 +107,15 @@ def r2(ctx: Ctx) -> None:
     inl = ("IndexMarket.get_market_index", "Market.get_fundamental_price")
     for q, leaf in chain:
         f = ctx.func(q)
-        for p in ctx.paths(q, inline=tuple(x for x in inl if x != q), keep=(leaf,)):
+        qpaths = ctx.paths(q, inline=tuple(x for x in inl if x != q), keep=(leaf,))
+        if leaf == "compute_market_index":
+            # answers taken from a table kept on the market (a memo of the index per time): whether an entry is still the
+            # weighted average of what the components show now needs every writer of the component prices -- refused (seed C20t)
+            memo = [strip_ver(p.exit[1]) for p in qpaths if p.exit[0] == "return" and any(x[0] == "sub" and strip_ver(x[1])[0] == "attr" and strip_ver(strip_ver(x[1])[1]) == ("sym", "self") for x in subterms(strip_ver(p.exit[1])))]
+            if memo:
+                ctx.unrec(f, f.node, f"{q} passes its time argument through", "the getter answers from a table kept on the index market instead of computing: whether the stored value is still current is not decided", short(memo[0]))
+                continue
+        for p in qpaths:
             r = strip_ver(p.exit[1]) if p.exit[0] == "return" else NONE
             ok = r[0] == "call" and key(r[1]) == f"self.{leaf}" and (dict(r[3]).get("time") == ("sym", "time") or (r[2] and r[2][0] == ("sym", "time"))) and not p.conds
             if ok and leaf == "_extract_data_by_time":
